@@ -388,11 +388,21 @@ def _as_angle(t):
 
 
 def cos(t):
-    return _as_angle(t).cos()
+    try:
+        return _as_angle(t).cos()
+    except NotImplementedError:
+        from . import phase
+
+        return phase.cos_sin(t)[0]
 
 
 def sin(t):
-    return _as_angle(t).sin()
+    try:
+        return _as_angle(t).sin()
+    except NotImplementedError:
+        from . import phase
+
+        return phase.cos_sin(t)[1]
 
 
 def tan(t):
